@@ -2,11 +2,13 @@
 C03 — Flow items are conserved across the whole factory.
 Per node: accounting laws of the node automata, for EVERY activation sequence (every schedule,
 every environment).  Per edge: C02.  Composition: Spec/Compose.lean, for every graph.
-Splitter / Combiner / conveyors / fleet are not yet covered.
+Per-node laws here: Machine, Source, Sink.  Combiner / Splitter unit accounting: Props/C16 (plan / emitted / dropped);
+Fleet store conservation: Props/C02.fleet_conservation.  The conveyor stores have no conservation theorem (lock-step and judges only).
 -/
 import FsVerif.Proofs.Machine
 import FsVerif.Proofs.SourceSink
 import FsVerif.Spec.Compose
+import FsVerif.Props.C09
 namespace FsVerif.Props.C03
 open FsVerif
 
@@ -56,5 +58,14 @@ theorem machine_nodesum (cfg : MacCfg) (acts : List MacState.Act) :
   have := (MacState.reach_minv cfg acts).account.length_eq
   simp only [Compose.NodeSum.ok, List.length_append] at *
   omega
+
+/-! ### non-vacuity on the two RECORDED machine runs of Props/C09: 6 pulled = 0 held + 2 pushed + 4 dropped (non-blocking);
+3 pulled = 1 held + 2 pushed + 0 dropped (blocking) -/
+
+example : let s := MacState.runActs (MacState.init { wc := 1, blocking := false }) C09.demoNonBlocking
+    (s.pulled.length, s.held.length, s.pushedItems.length, s.dropped.length) = (6, 0, 2, 4) := by decide +kernel
+
+example : let s := MacState.runActs (MacState.init { wc := 1, blocking := true }) C09.demoBlocking
+    (s.pulled.length, s.held.length, s.pushedItems.length, s.dropped.length) = (3, 1, 2, 0) := by decide +kernel
 
 end FsVerif.Props.C03
